@@ -40,6 +40,29 @@ class Canon18(fingerprint.Canon):
         return super()._c(v)
 
 
+# how the application hands its hooks to the manager: a bound coroutine method, or any other callable that returns an awaitable
+# (a lambda binding extra arguments, functools.partial, an object with an async __call__) - all are awaited by the manager
+HOOK_KIND = ["method"]
+HOOK_KINDS = ("method", "lambda", "partial", "callable-object")
+
+
+def _as_hook(f: Any) -> Any:
+    import functools
+
+    k = HOOK_KIND[0]
+    if k == "lambda":
+        return lambda *a: f(*a)
+    if k == "partial":
+        return functools.partial(f)
+    if k == "callable-object":
+        class Hook:
+            async def __call__(self, *a: Any) -> Any:
+                return await f(*a)
+
+        return Hook()
+    return f
+
+
 class RecWorld(ConnWorld):
     def __init__(self, supplied_zc: bool = False, hostname: bool = False, key_text: str | None = None) -> None:
         import aioesphomeapi.host_resolver as hr
@@ -74,11 +97,11 @@ class RecWorld(ConnWorld):
         self.supplied = supplied_zc
         self.rl = ReconnectLogic(
             client=self.client,
-            on_connect=self._on_connect,
-            on_disconnect=self._on_disconnect,
+            on_connect=_as_hook(self._on_connect),
+            on_disconnect=_as_hook(self._on_disconnect),
             zeroconf_instance=self.app_zc,
             name=None if hostname else "dev",
-            on_connect_error=self._on_error,
+            on_connect_error=_as_hook(self._on_error),
         )
         # --- monitor state ---
         self.viol: list[str] = []
@@ -678,11 +701,18 @@ DIRECTED: list[tuple[tuple[str, ...], list[Any]]] = [
 ]
 
 
+HOOK_HISTORY = ["rl_start", "tcp_refused", "time", "tcp_ok", "hello_ok", "eof", "tcp_ok", "hello_ok", "DR", "time", "tcp_refused", "time"]
+
+
 def directed_runs(res: Result) -> int:
     n = 0
-    for sd, choices in DIRECTED:
+    for sd, choices, hook_kind in [(a, b, "method") for a, b in DIRECTED] + [((), HOOK_HISTORY, k) for k in HOOK_KINDS]:
         h = factory(sd, False, False)
-        w = h.fresh()
+        HOOK_KIND[0] = hook_kind
+        try:
+            w = h.fresh()
+        finally:
+            HOOK_KIND[0] = "method"
         try:
             v: list[str] = []
             done: list[Any] = []
@@ -698,8 +728,9 @@ def directed_runs(res: Result) -> int:
                 v = h.finish(w)
             n += 1
             if v:
-                res.add(":".join(v[0].split(":")[:2])[:70], v[0], {"harness": "c18", "seed": list(sd), "supplied": False, "hostname": False,
-                                                                   "choices": done, "violated": v, "observations": list(w.log)})
+                res.add(":".join(v[0].split(":")[:2])[:70], v[0] + (f" [hooks given as {hook_kind}]" if hook_kind != "method" else ""),
+                        {"harness": "c18", "seed": list(sd), "supplied": False, "hostname": False, "hook_kind": hook_kind,
+                         "choices": done, "violated": v, "observations": list(w.log)})
         finally:
             h.close(w)
     return n
@@ -773,7 +804,11 @@ def replay(rp: dict[str, Any]) -> bool:
         print(rp["key"], "->", "still violated" if bad else "holds")
         return not bad
     h = factory(tuple(d["seed"]), d.get("supplied", False), d.get("hostname", False), d.get("connect_raises", False), d.get("error_slow", False))
-    w = h.fresh()
+    HOOK_KIND[0] = d.get("hook_kind", "method")
+    try:
+        w = h.fresh()
+    finally:
+        HOOK_KIND[0] = "method"
     try:
         v: list[str] = []
         for lab in d["choices"]:
